@@ -125,7 +125,10 @@ def decode_from(r, t):
         return struct.unpack("<d", r.take(8))[0]
     if nm == "string":
         n = struct.unpack("<Q", r.take(8))[0]
-        return r.take(n).decode("utf-8")
+        try:
+            return r.take(n).decode("utf-8")
+        except UnicodeDecodeError as e:
+            raise RefError("string bytes are not UTF-8: %s" % e)
     if nm == "UUID":
         return uuid.UUID(bytes=r.take(16))
     if nm == "Offset":
